@@ -27,30 +27,6 @@ FPS = "cvc5,z3"      # floating point
 
 PROPS = {}
 
-PROPS["C05"] = {
-    "quick": [
-        J("ratelimiter", "ZZ_H05a_SmoothStep", solver=INT, native=True, note="inductive step from arbitrary valid state; intervals {1,3,7ns,1us,1ms,333333333ns,1s}; k<=1024; t<2^47; N<2^50"),
-        J("ratelimiter", "ZZ_H05b_BurstyStep", solver=INT, native=True, params={"bursty_cfgs": 5},
-          note="inductive step from arbitrary valid state; (M,P) in {(1,1s),(2,1s),(2,50ms),(4,1s),(8,7ns)}; deficit>=-2^20; k<=1024; t<2^47"),
-        J("ratelimiter", "ZZ_H05c_KAtOnce", solver=INT, native=True, params={"bursty_cfgs": 3, "smooth_cfgs": 3}, note="k<=4 at once vs k singles at the same instant"),
-    ],
-    "assumptions": ["requested permits k >= 1", "stopwatch non-decreasing", "interval/period taken from the stated grid; bursty maxExecutions is a power of two (division of a symbolic deficit by 3, 5, 10 or 100 is not decided by any installed solver within 60 s)"],
-}
-PROPS["C05"]["thorough"] = PROPS["C05"]["quick"]
-
-PROPS["C03"] = {
-    "quick": [
-        J("circuitbreaker", "ZZ_H03a_RingStep", solver="z3", native=True, params={"max_ring": 6}, note="inductive ring step, capacity 1..6, arbitrary bits/head/occupancy under Inv_c; real bitset package interpreted"),
-        J("circuitbreaker", "ZZ_H03c_TimedStep", solver=INT, native=True, params={"bucket_base": 1, "bucket_cfgs": 2}, note="inductive time-bucket step; bucketNanos in {7,100}; head on grid {0,10,10^6}+ring position; arbitrary counts<2^16; t symbolic <2^47"),
-        J("circuitbreaker", "ZZ_H03g_History", solver=INT, native=True, params={"ops": 2}, note="bounded history (2 ops) through the public API vs reference machine; 6 configurations; symbolic delay/instants (count-based), boundary grid (time-based)"),
-    ],
-    "thorough": [
-        J("circuitbreaker", "ZZ_H03a_RingStep", solver="z3", native=True, params={"max_ring": 12}, time_limit_s=1500, note="inductive ring step, capacity 1..12"),
-        J("circuitbreaker", "ZZ_H03c_TimedStep", solver=INT, native=True, time_limit_s=1500, note="inductive time-bucket step; bucketNanos in {1,7,100,10^8,6*10^9}"),
-        J("circuitbreaker", "ZZ_H03g_History", solver=INT, native=True, params={"ops": 3}, time_limit_s=1500, note="bounded history (3 ops) vs reference machine; 6 configurations"),
-    ],
-    "assumptions": ["clock non-decreasing", "thresholding period divisible by 10", "ring capacity <= 12 (one bitset word)", "bucket counts < 2^16", "record calls in half-open state are preceded by a permit (protocol use)"],
-}
 
 def Z(fn, **kw):
     return J("zzverif", fn, **kw)
@@ -69,9 +45,10 @@ _ret_q = dict(params={"execs": 2, "max_inv": 4, "max_retries": 2, "unlimited": 1
 _ret_t = dict(params={"execs": 2, "max_inv": 6, "max_retries": 4, "unlimited": 1}, native=True, time_limit_s=3000, note="retry alone: maxRetries in {-1..4}, scripts<=6, 2 successive executions")
 _retn = dict(params={"execs": 1, "max_inv": 4, "max_retries": 2}, native=True, note="retry directly under/over each other policy kind; scripts<=4")
 _fb_q = dict(params={"execs": 2, "max_inv": 3, "max_retries": 1}, native=True, note="fallback kinds x handle conditions x inner {none, each policy kind}; 2 executions")
-_ca_q = dict(params={"execs": 3, "max_inv": 2, "max_retries": 1, "handles": 2}, native=True, note="cache x {none,retry,breaker,bulkhead,cache} inner; configured/context/non-string keys; symbolic prefilled content; 3 executions")
+_ca_q = dict(params={"execs": 2, "max_inv": 2, "max_retries": 1, "handles": 3}, native=True, note="cache x {none,retry,breaker,bulkhead,cache} inner; configured/context/non-string keys; symbolic prefilled content; 2 executions")
 
-PROPS["C01"] = {"quick": [Z("ZZ_C01_Compose", labels=["nesting:"], **_cmp_q)], "thorough": [Z("ZZ_C01_Compose", labels=["nesting:"], **_cmp_t)],
+PROPS["C01"] = {"quick": [Z("ZZ_C01_Compose", labels=["nesting:"], **_cmp_q), L2("ZZ_S07e_TimeoutOutside", 1, labels=["nesting:"], note="Timeout(T)(Bulkhead|Breaker(fn sleeping d)), T,d symbolic: the inner policy post-processes the function's outcome also when the timeout fires; P=1")],
+                "thorough": [Z("ZZ_C01_Compose", labels=["nesting:"], **_cmp_t), L2("ZZ_S07e_TimeoutOutside", 2, 1, labels=["nesting:"], note="P=2, 1 delay injection")],
                 "assumptions": ["hedge policy and firing timeouts/blocking waits are covered per policy (C06-C09), not inside the sequential composition", "unlimited retries only where every attempt reaches the function"]}
 PROPS["C02"] = {"quick": [Z("ZZ_C02_Retry", labels=["nesting:", "stats:"], **_ret_q), Z("ZZ_C02_RetryNested", labels=["nesting:"], **_retn)],
                 "thorough": [Z("ZZ_C02_Retry", labels=["nesting:", "stats:"], **_ret_t), Z("ZZ_C02_RetryNested", labels=["nesting:"], **_retn)],
@@ -87,24 +64,55 @@ PROPS["C12"] = {
 }
 _cmp_q1 = dict(params={"depth": 2, "execs": 1, "max_inv": 3, "max_retries": 1, "handles": 3}, native=True, time_limit_s=900,
                note="every ordered composition (with repetition) of depth<=2; 1 execution; <=3 invocations; maxRetries<=1; 3 handle-condition kinds")
-PROPS["C16"] = {"quick": [Z("ZZ_C01_Compose", labels=["events:"], **_cmp_q1)], "thorough": [Z("ZZ_C01_Compose", labels=["events:"], **_cmp_t)],
+PROPS["C16"] = {"quick": [Z("ZZ_C01_Compose", labels=["events:"], **_cmp_q1), L2("ZZ_S06a_Bulkhead", 0, params={"max_m": 1}, labels=["events:"], note="OnFull exactly for ErrFull rejections (cancellation while waiting is not 'full'); P=0"),
+                          L2("ZZ_S07a_Timeout", 2, labels=["timeout: listener"], note="OnTimeoutExceeded exactly when the timeout result wins; P=2")], "thorough": [Z("ZZ_C01_Compose", labels=["events:"], **_cmp_t)],
                 "assumptions": ["sequential executions; hedge/timeout/bulkhead-wait events under concurrency are asserted in the Layer-2 scenarios"]}
-PROPS["C17"] = {"quick": [Z("ZZ_C01_Compose", labels=["stats:"], **_cmp_q1), L2("ZZ_S09a_Hedge", 1, params={"max_hedges": 1}, labels=["stats:"], note="overlapping hedge attempts: Attempts/Hedges/IsHedge inside each attempt; P=1")], "thorough": [Z("ZZ_C01_Compose", labels=["stats:"], **_cmp_t)],
+PROPS["C17"] = {"quick": [Z("ZZ_C01_Compose", labels=["stats:"], **_cmp_q1), L2("ZZ_S09a_Hedge", 1, params={"max_hedges": 1}, labels=["stats:"], note="overlapping hedge attempts: Attempts/Hedges/IsHedge inside each attempt; P=1"),
+                          L2("ZZ_S17b_RetryHedgeStats", 1, labels=["stats:"], note="Retry(Hedge(fn)): Attempts = 1+Retries+Hedges in OnRetry/OnDone; P=1")], "thorough": [Z("ZZ_C01_Compose", labels=["stats:"], **_cmp_t)],
                 "assumptions": ["start/elapsed time monotonicity follows from the virtual clock being non-decreasing; overlapping hedges are asserted in the hedge scenario (C09)"]}
+
+
+PROPS["C05"] = {
+    "quick": [
+        J("ratelimiter", "ZZ_H05a_SmoothStep", solver=INT, native=True, note="inductive step from arbitrary valid state; intervals {1,3,7ns,1us,1ms,333333333ns,1s}; k<=1024; t<2^47; N<2^50"),
+        J("ratelimiter", "ZZ_H05b_BurstyStep", solver=INT, native=True, params={"bursty_cfgs": 5},
+          note="inductive step from arbitrary valid state; (M,P) in {(1,1s),(2,1s),(2,50ms),(4,1s),(8,7ns)}; deficit>=-2^20; k<=1024; t<2^47"),
+        J("ratelimiter", "ZZ_H05c_KAtOnce", solver=INT, native=True, params={"bursty_cfgs": 3, "smooth_cfgs": 3}, note="k<=4 at once vs k singles at the same instant"),
+        L2("ZZ_S05f_BlockingAcquire", 1, solver=INT, labels=["limiter:"], note="blocking AcquirePermit(ctx) on a smooth / bursty limiter (1 permit per 1000 ns), symbolic request instants and cancellation; P=1"),
+    ],
+    "assumptions": ["requested permits k >= 1", "stopwatch non-decreasing", "blocking acquire: interval/period 1 us, one permit per slot/period", "interval/period taken from the stated grid; bursty maxExecutions is a power of two (division of a symbolic deficit by 3, 5, 10 or 100 is not decided by any installed solver within 60 s)"],
+}
+PROPS["C05"]["thorough"] = PROPS["C05"]["quick"]
+
+PROPS["C03"] = {
+    "quick": [
+        J("circuitbreaker", "ZZ_H03a_RingStep", solver="z3", native=True, params={"max_ring": 6}, note="inductive ring step, capacity 1..6, arbitrary bits/head/occupancy under Inv_c; real bitset package interpreted"),
+        J("circuitbreaker", "ZZ_H03c_TimedStep", solver=INT, native=True, params={"bucket_base": 1, "bucket_cfgs": 2}, note="inductive time-bucket step; bucketNanos in {7,100}; head on grid {0,10,10^6}+ring position; arbitrary counts<2^16; t symbolic <2^47"),
+        J("circuitbreaker", "ZZ_H03g_History", solver=INT, native=True, params={"ops": 3}, time_limit_s=900, note="bounded history (3 ops) through the public API vs reference machine; 6 configurations; symbolic delay/instants (count-based), boundary grid (time-based)"),
+    ],
+    "thorough": [
+        J("circuitbreaker", "ZZ_H03a_RingStep", solver="z3", native=True, params={"max_ring": 12}, time_limit_s=1500, note="inductive ring step, capacity 1..12"),
+        J("circuitbreaker", "ZZ_H03c_TimedStep", solver=INT, native=True, time_limit_s=1500, note="inductive time-bucket step; bucketNanos in {1,7,100,10^8,6*10^9}"),
+        J("circuitbreaker", "ZZ_H03g_History", solver=INT, native=True, params={"ops": 4}, time_limit_s=3000, note="bounded history (4 ops) vs reference machine; 6 configurations"),
+    ],
+    "assumptions": ["clock non-decreasing", "thresholding period divisible by 10", "ring capacity <= 12 (one bitset word)", "bucket counts < 2^16", "record calls in half-open state are preceded by a permit (protocol use)"],
+}
 
 _L2NOTE = "interpreted goroutines, virtual time (symbolic durations/instants, every feasible time order incl. ties), all schedules within the preemption bound, HB race detector on"
 
 PROPS["C07"] = {
     "quick": [L2("ZZ_S07a_Timeout", 2, note="Timeout(T)(fn): T,d symbolic<2^40, sleeping and block-until-cancelled fn; P=2; " + _L2NOTE),
               L2("ZZ_S07b_RetryTimeout", 1, note="Retry(max 1)(Timeout(T)(fn)): T,d1,d2 symbolic; P=1"),
-              L2("ZZ_S07c_TimeoutFallback", 1, note="Timeout(Fallback(fn)) and Fallback(Timeout(fn)), symbolic fn and fallback durations; P=1")],
+              L2("ZZ_S07c_TimeoutFallback", 1, note="Timeout(Fallback(fn)) and Fallback(Timeout(fn)), symbolic fn and fallback durations; P=1"),
+              L2("ZZ_S07d_RetryTimeoutCtx", 1, note="Retry(Timeout(fn)) + caller cancel at symbolic instant (tie d1=T excluded): ErrExceeded only if the last attempt's Timeout fired; P=1")],
     "thorough": [L2("ZZ_S07a_Timeout", 3, 1, note="P=3, 1 delay injection"), L2("ZZ_S07b_RetryTimeout", 2, 1, time_limit_s=2000, note="P=2, 1 delay injection"),
                  L2("ZZ_S07c_TimeoutFallback", 2, 1, time_limit_s=2000, note="P=2, 1 delay injection")],
     "labels": ["timeout:", "retry:", "fallback:", "cancel:"],
 }
 PROPS["C06"] = {
     "quick": [L2("ZZ_S06a_Bulkhead", 0, params={"max_m": 1}, labels=["bulkhead:"], note="m=1, 2 async executions + optional standalone holder + optional context cancel at symbolic instant; maxWait 0 or symbolic; P=0 (all time orders)"),
-              L2("ZZ_S06a_Bulkhead", 1, params={"max_m": 1}, labels=["bulkhead:"], time_limit_s=900, note="same, P=1")],
+              L2("ZZ_S06a_Bulkhead", 1, params={"max_m": 1}, labels=["bulkhead:"], time_limit_s=900, note="same, P=1"),
+              L2("ZZ_S06b_StandaloneWaiter", 1, labels=["bulkhead:"], note="full bulkhead(1): running holder, standalone AcquirePermit(ctx) waiter cancelled at symbolic instant, late third execution; P=1")],
     "thorough": [L2("ZZ_S06a_Bulkhead", 1, params={"max_m": 2}, labels=["bulkhead:"], time_limit_s=3000, note="m<=2, 3 executions, P=1")],
 }
 PROPS["C09"] = {
@@ -114,11 +122,12 @@ PROPS["C09"] = {
     "assumptions": ["when the hedge timer and an accepted result become ready at the same instant the coordinator's select may take either; an attempt launched in that tie is accepted (it must find itself cancelled)"],
 }
 PROPS["C08"] = {
-    "quick": [L2("ZZ_S08a_CancelRetry", 1, labels=["cancel:", "retry:"], note="Retry(max 2, delay symbolic)(optional failing Fallback)(fn) with one source: ctx cancel / ctx deadline / ExecutionResult.Cancel / enclosing Timeout at a symbolic instant; P=1"),
+    "quick": [L2("ZZ_S08a_CancelRetry", 1, labels=["cancel:", "retry:"], note="Retry(max 2, delay symbolic)(optional failing Fallback)(fn) with one source: ctx cancel / ctx cancel with cause / ctx deadline / ExecutionResult.Cancel / enclosing Timeout at a symbolic instant; P=1"),
               L2("ZZ_S08a_CancelRetry", 2, params={"src": 2}, labels=["cancel:", "retry:"], note="ExecutionResult.Cancel racing the retry loop; P=2"),
-              L2("ZZ_S08b_CancelWaits", 1, labels=["cancel:"], note="context cancelled while a rate-limiter / bulkhead wait is in progress inside a retry; P=1")],
+              L2("ZZ_S08b_CancelWaits", 1, labels=["cancel:"], note="context cancel / ExecutionResult.Cancel while a rate-limiter / bulkhead wait is in progress (retry outside resp. inside); P=1"),
+              L2("ZZ_S08c_CancelHedge", 1, labels=["cancel:"], note="hedged execution (delay symbolic, matching / non-matching cancel conditions) cancelled through its context at a symbolic instant; P=1")],
     "thorough": [L2("ZZ_S08a_CancelRetry", 3, 1, labels=["cancel:", "retry:"], time_limit_s=3000, note="all sources, P=3, 1 delay injection"),
-                 L2("ZZ_S08b_CancelWaits", 3, 1, labels=["cancel:"], note="P=3")],
+                 L2("ZZ_S08b_CancelWaits", 3, 1, labels=["cancel:"], note="P=3"), L2("ZZ_S08c_CancelHedge", 2, 1, labels=["cancel:"], note="P=2")],
     "assumptions": ["cooperating functions take no virtual time, so 'promptly' is: the execution ends at the cancellation instant"],
 }
 PROPS["C04"] = {
@@ -143,7 +152,7 @@ PROPS["C14"] = {"quick": _c14, "thorough": _c14,
                 "assumptions": ["bounded exploration, not a proof of race freedom; verdicts are happens-before based, so one explored schedule exposes a race that needs a rare schedule to manifest"]}
 _c19 = [L2("ZZ_S07a_Timeout", 1, labels=["leak:"], note="quiescence after Timeout executions"), L2("ZZ_S07b_RetryTimeout", 1, labels=["leak:"], note="after Retry(Timeout)"),
         L2("ZZ_S09a_Hedge", 1, params={"max_hedges": 1}, labels=["leak:"], note="after hedged executions"), L2("ZZ_S08a_CancelRetry", 1, labels=["leak:"], note="after cancelled executions"),
-        L2("ZZ_S08b_CancelWaits", 1, labels=["leak:"], note="after cancelled waits"), L2("ZZ_S15a_Async", 1, params={"readers": 1}, labels=["leak:"], note="async runner"),
+        L2("ZZ_S08b_CancelWaits", 1, labels=["leak:"], note="after cancelled waits"), L2("ZZ_S08c_CancelHedge", 1, labels=["leak:"], note="after a cancelled hedged execution"), L2("ZZ_S15a_Async", 1, params={"readers": 1}, labels=["leak:"], note="async runner"),
         L2("ZZ_S06a_Bulkhead", 0, params={"max_m": 1}, labels=["leak:"], note="after bulkhead executions")]
 PROPS["C19"] = {"quick": _c19, "thorough": _c19}
 
@@ -170,10 +179,13 @@ PROPS["C13"] = {
     "assumptions": ["configuration magnitudes come from the stated grid (float multiplication of two symbolic operands is not decided by any installed solver within 300 s); random draws, elapsed time, delay-function values and the previous backoff delay are symbolic",
                     "float32 rounding of the delay (2^-22 relative) is tolerated where the code computes in float32"],
 }
+PROPS["C02"]["quick"].append(L2("ZZ_S02d_ConcurrentBudgets", 1, labels=["retry:", "stats:"], note="two concurrent async executions sharing one retry policy (max 1 retry), symbolic durations/outcomes; P=1"))
+PROPS["C02"]["thorough"].append(L2("ZZ_S02d_ConcurrentBudgets", 2, labels=["retry:", "stats:"], time_limit_s=3000, note="P=2"))
 PROPS["C02"]["quick"].append(L2("ZZ_S13h_RetryDelay", 1, labels=["retry:"], note="max duration: no retry after a failure handled once maxDuration elapsed; symbolic durations; P=1"))
 PROPS["C02"]["thorough"].append(L2("ZZ_S13h_RetryDelay", 2, labels=["retry:"], note="max duration; P=2"))
 _c18 = [J("failsafehttp", "ZZ_H18a_RetryableStatus", note="status code symbolic in [100,600) through the real RetryPolicyBuilder"),
         J("failsafehttp", "ZZ_H18b_RetryAfter", note="status symbolic x 9 Retry-After header shapes through the real DelayFunc"),
+        J("failsafehttp", "ZZ_H18d_RetryAfterScheduled", note="500, then 429/503 with Retry-After n, then 200 through the real retry policy: scheduled wait >= n seconds, taken from the attempt that just failed"),
         J("internal/util", "ZZ_H18c_MergeContexts", preempt=1, race=True, labels=["adapter-ctx:"], note="caller ctx in {Background,TODO,cancellable,with value,with deadline(symbolic)} x execution ctx in {Background, cancellable}; who ends first; P=1")]
 PROPS["C18"] = {"quick": _c18, "thorough": _c18,
                 "level_note": "PARTIAL: only the adapter kernels are decided (retryable-status predicate, Retry-After arithmetic, per-attempt context merging). Everything that needs a real transport (requests as received by a server, body replay, response body readable to the end, gRPC stack) is not applicable to solver-based checking here and is listed under not_applicable.",
